@@ -36,7 +36,7 @@ class St:
 
 class Frame:
     __slots__ = ("func", "module", "captured", "exits", "chain", "entry_pc_len", "self_node",
-                 "cls", "loops")
+                 "cls", "loops", "declared_globals", "declared_nonlocals")
 
     def __init__(self, func, module, captured, chain, entry_pc_len=0, self_node=None, cls=None):
         self.func = func
@@ -48,6 +48,8 @@ class Frame:
         self.self_node = self_node
         self.cls = cls
         self.loops: List[Dict[str, list]] = []     # enclosing loops: states captured at break / continue
+        self.declared_globals: set = set()         # names under a `global` statement
+        self.declared_nonlocals: set = set()       # names under a `nonlocal` statement
 
 
 class Effect:
